@@ -1,5 +1,5 @@
 (* Model.KVRangeRun: case type and executable checkers for Run/cases_C05.v (no proofs). *)
-From DV Require Import Base.Prelude Base.Int Base.Lex Base.KeyShape Gen.Consts Gen.KeyClasses Gen.LocalConsts
+From DV Require Import Base.Prelude Base.Int Base.Lex Base.KeyShape Gen.Consts Gen.KeyClasses Gen.LocalConstsKV
      Model.Keys Model.KV Model.KVRange Model.KeysRun.
 Local Open Scope N_scope.
 
